@@ -122,3 +122,56 @@ def shrink_case(c, k, t, max_rounds=14):
         k2, t2 = bad_verdict(cs[0])
         return cs[0], k2, t2
     return c, k, t
+
+
+# ----------------------------------------------------------------------------------------
+# layout: owners of the emitted text lines (from the hook's final instruction list)
+
+def line_owners(result):
+    """owner function ('' = main) of every line of result['code'], by aligning the text with the
+    hook's final instruction list (label lines that were removed from the text are skipped)."""
+    final = (result.get("_verif") or {}).get("final") or []
+    lines = result["code"].split("\n") if result["code"] != "" else []
+    owners = []
+    j = 0
+    from .ic10 import tokenize
+    for ln in lines:
+        toks = tokenize(ln)
+        first = toks[0] if toks else ""
+        k = j
+        while k < len(final) and not _same_op(final[k]["op"], first):
+            k += 1
+        if k >= len(final):
+            owners.append(owners[-1] if owners else "")
+            continue
+        owners.append(final[k].get("owner") or "")
+        j = k + 1
+    return owners
+
+
+def _same_op(op, first):
+    op = op.strip()
+    return op == first or (op.endswith(":") and op == first) or op.split()[:1] == [first]
+
+
+def region_entries(result):
+    ow = line_owners(result)
+    return [i for i in range(1, len(ow)) if ow[i] and ow[i] != ow[i - 1]], ow
+
+
+def main_can_terminate(P) -> bool:
+    """source-level: can the top-level code run to its end?"""
+    def has_break(ss):
+        for s in ss:
+            if s[0] == "break":
+                return True
+            if s[0] == "if":
+                if any(has_break(b) for _, b in s[1]) or (s[2] and has_break(s[2])):
+                    return True
+        return False
+    if not P.main:
+        return True
+    last = P.main[-1]
+    if last[0] == "while" and last[1] == ("num", 1) and not has_break(last[2]):
+        return False
+    return True
